@@ -99,6 +99,19 @@ def run_cli(binary, mode, xml, cfg, workdir, out_initial=None, samefile=False, t
     outp = inp if samefile else os.path.join(workdir, "out.svg")
     with open(inp, "wb") as f:
         f.write(xml.encode("utf-8"))
+    # output = input, named by another route (samefile = "dotdot" | "symlink" | "relative")
+    out_arg, cwd = None, None
+    if samefile == "dotdot":
+        os.makedirs(os.path.join(workdir, "sub"), exist_ok=True)
+        out_arg = os.path.join(workdir, "sub", "..", "in.xml")
+    elif samefile == "symlink":
+        out_arg = os.path.join(workdir, "link.svg")
+        if os.path.lexists(out_arg):
+            os.unlink(out_arg)
+        os.symlink("in.xml", out_arg)
+    elif samefile == "relative":
+        out_arg, cwd = "in.xml", workdir
+    samefile = bool(samefile)
     if not samefile:
         if out_initial is None:
             if os.path.exists(outp):
@@ -114,9 +127,9 @@ def run_cli(binary, mode, xml, cfg, workdir, out_initial=None, samefile=False, t
     else:
         stdin = xml.encode("utf-8")
     if mode.endswith("-file"):
-        args += ["-o", outp]
+        args += ["-o", out_arg or outp]
     args += cli_args(cfg)
-    p = subprocess.run(args, input=stdin, stdout=subprocess.PIPE, stderr=subprocess.PIPE, timeout=timeout)
+    p = subprocess.run(args, input=stdin, stdout=subprocess.PIPE, stderr=subprocess.PIPE, timeout=timeout, cwd=cwd)
     after = h(open(outp, "rb").read()) if os.path.exists(outp) else "-"
     ok = p.returncode == 0
     fe = {"file-file": "cli-file", "stdin-file": "cli-stdin-file", "file-stdout": "cli-stdout", "stdin-stdout": "cli-stdin-stdout"}[mode]
